@@ -111,8 +111,10 @@ structure State where
   /-- `Params.EnableGovernance` -/
   enableGov : Bool := true
   /-- denoms `d` whose marker address `@d` currently holds a plain (non-marker) auth account:
-  `SendCoins` creates one for any recipient without an account (forked x/bank/keeper/send.go:332);
-  `GetMarker` then fails with "account at … is not a marker account" (keeper.go:149) -/
+  `SendCoins` creates one for any recipient without an account (forked x/bank/keeper/send.go:332).
+  Since the fix ed45788f3 the send restriction treats it as "no marker" (sends of `d` are not
+  blocked); it still matters for `canForceTransferFrom` (a sequence-0 plain account cannot be
+  force-debited) and is converted when the marker is added (`AddMarkerAccount`). -/
   plain : List Denom := []
 
 /-- `GetMarkerByDenom` / `GetMarker(MarkerAddress(denom))` -/
@@ -223,7 +225,7 @@ def sendRestriction (s : State) (fromA toA : Addr) (d : Denom) : Except Err Unit
   | some m =>
     check (m.status = .active) .state
     if m.restricted then check (m.hasAccess fromA .transfer) .perm else pure ()
-  | none => check (!s.plain.contains d) .notfound   -- `GetMarker`: "is not a marker account"
+  | none => pure ()   -- also when a plain account sits at `@d`: `GetMarker`'s error is ignored (fix ed45788f3)
 
 /-! ### marker keeper -/
 
